@@ -210,7 +210,16 @@ def save_and_load(model, mix, root, safe, what):
 
     before = set(os.listdir(os.path.join(root, "results"))) if os.path.isdir(os.path.join(root, "results")) else set()
     fits_before = model.permeance_fits
+    # the model remembers ANOTHER membrane directory (as one built from a loaded membrane does); the save must go where it is told
+    decoy = os.path.join(root, "decoy-membrane")
+    os.makedirs(decoy, exist_ok=True)
+    decoy_before = sorted(os.listdir(decoy))
+    model.membrane_path = Path(decoy)
     out = call(model.save, root, safe)
+    leaked = [d for d in os.listdir(decoy) if d not in decoy_before]
+    if os.path.isdir(os.path.join(decoy, "results")):
+        leaked += os.listdir(os.path.join(decoy, "results"))
+    require(not [d for d in leaked if d != "results"], "%s: saving to %s wrote into the membrane directory the model remembered: %r", what, root, leaked)
     after = set(os.listdir(os.path.join(root, "results"))) if os.path.isdir(os.path.join(root, "results")) else set()
     if is_raised(out):
         require(out.type == "FileExistsError" and after == before, "%s: save raised %r (directories before %r, after %r)", what, out, sorted(before), sorted(after))
